@@ -3,6 +3,7 @@
 #define _GNU_SOURCE
 #endif
 #include "simfs.h"
+#include "simsched.h"
 #include <dlfcn.h>
 #include <errno.h>
 #include <fcntl.h>
@@ -242,6 +243,7 @@ static FILE* real_fopen(const char* p, const char* m, bool is64) {
 }
 
 static FILE* sim_fopen(const char* path, const char* mode, bool is64) {
+    sched::syscall_point();
     if (!is_sim_path(path)) return real_fopen(path, mode, is64);
     SIM_IGNORE;
     FS& F = fs();
@@ -309,6 +311,7 @@ FILE* fopen(const char* path, const char* mode) { return sim_fopen(path, mode, f
 FILE* fopen64(const char* path, const char* mode) { return sim_fopen(path, mode, true); }
 
 int fclose(FILE* f) {
+    sched::syscall_point();
     static fclose_t real = nullptr;
     if (!real) real = (fclose_t)dlsym(RTLD_NEXT, "fclose");
     int fd = f ? fileno(f) : -1;
@@ -334,6 +337,7 @@ int fclose(FILE* f) {
 }
 
 ssize_t write(int fd, const void* buf, size_t n) {
+    sched::syscall_point();
     if (fd >= 0 && fd < 65536 && g_is_sim[fd]) {
         SIM_IGNORE;
         FS& F = fs();
@@ -349,6 +353,7 @@ ssize_t write(int fd, const void* buf, size_t n) {
 }
 
 ssize_t writev(int fd, const struct iovec* iov, int cnt) {
+    sched::syscall_point();
     if (fd >= 0 && fd < 65536 && g_is_sim[fd]) {
         SIM_IGNORE;
         FS& F = fs();
@@ -368,6 +373,7 @@ ssize_t writev(int fd, const struct iovec* iov, int cnt) {
 }
 
 ssize_t read(int fd, void* buf, size_t n) {
+    sched::syscall_point();
     if (fd >= 0 && fd < 65536 && g_is_sim[fd]) {
         SIM_IGNORE;
         FS& F = fs();
@@ -383,6 +389,7 @@ ssize_t read(int fd, void* buf, size_t n) {
 }
 
 int close(int fd) {
+    sched::syscall_point();
     if (fd >= 0 && fd < 65536 && g_is_sim[fd]) {
         SIM_IGNORE;
         FS& F = fs();
@@ -434,6 +441,7 @@ int fstat(int fd, struct stat* st) {
 int fstat64(int fd, struct stat64* st) { return fstat(fd, (struct stat*)st); }
 
 int rename(const char* from, const char* to) {
+    sched::syscall_point();
     if (is_sim_path(from) && is_sim_path(to)) {
         SIM_IGNORE;
         FS& F = fs();
